@@ -49,7 +49,8 @@ def g_icfg(c):
 
 
 def g_ocfg(c):
-    h = {"none": "None", "wrap": "(Some oh_wrap)", "raises": "(Some oh_raises)"}[c["handler"]]
+    h = {"none": "None", "wrap": "(Some oh_wrap)", "raises": "(Some oh_raises)", "count": "(Some oh_count)",
+         "null": "(Some oh_null)"}[c["handler"]]
     return "{| o_alias := %s; o_static := %s; o_handler := %s; o_fail := %s; o_default := %s |}" % (
         gstr(c["alias"]), gbool(c["static"]), h, gbool(c["fail"]), pv.to_pyval(c["default"]))
 
@@ -261,6 +262,8 @@ def rand_ocfg(rng, w):
     handler = "none"
     if rng.random() < w["handler"]:
         handler = rng.choice(["wrap", "wrap", "raises"])
+        if w.get("unsized_handlers") and rng.random() < w["unsized_handlers"]:      # (opt-in: no draw for weights that do not ask for it)
+            handler = rng.choice(["count", "null"])
     return dict(alias=rng.choice(OUT_ALIASES), static=rng.random() < w["static"], handler=handler,
                 fail=rng.random() < 0.8, default=rng.choice([pv.none(), pv.i(0), pv.s("dflt"), pv.tup([pv.i(1)])]))
 
